@@ -168,6 +168,15 @@ func (p *predictiveParser) Parse(tokenF parser.TokenFunc, prodF parser.Productio
 		}
 	}
 
+	// The stack is exhausted, so the input must be exhausted too.
+	// Any remaining token means only a proper prefix of the input is a sentence.
+	if !token.Terminal.Equal(grammar.Endmarker) {
+		return &parser.ParseError{
+			Description: fmt.Sprintf("unexpected input <%s, %s> after the end of the sentence", token.Terminal, token.Lexeme),
+			Pos:         token.Pos,
+		}
+	}
+
 	// Accept the input string.
 	return nil
 }
